@@ -254,7 +254,9 @@ impl Transport for HypPciTransport {
     }
 
     fn read_config_generation(&self) -> u32 {
-        configread!(self.common_cfg, config_generation)
+        // `config_generation` is a single byte: read it as one, not as the `u32` of the return type.
+        let config_generation: u8 = configread!(self.common_cfg, config_generation);
+        config_generation.into()
     }
 
     fn read_config_space<T: FromBytes>(&self, offset: usize) -> Result<T, Error> {
